@@ -256,13 +256,7 @@ func ruleE5(p *Program, c *Check, min int) {
 	}
 	ruleGlobals(p, c)
 	ruleTypes(p, c)
-	pkgs := map[string]bool{}
-	for k := range anchored {
-		if i := strings.Index(k, "."); i > 0 {
-			pkgs[k[:i]] = true
-		}
-	}
-	ruleConsts(p, c, verifRoot, pkgs)
+	ruleConsts(p, c, verifRoot, anchored)
 }
 
 func itoa(i int) string { return strconv.Itoa(i) }
